@@ -213,6 +213,12 @@ class Container(dict):
         compiled_pattern = re.compile(pattern)
         return self.__class__._search(self, compiled_pattern, True)
 
+    def __reduce__(self, /):
+        """
+        Used by pickle: recreate through the constructor, so that the attribute dict is the container itself again (and entries named like dict methods, eg. items, do not break pickling).
+        """
+        return (self.__class__, (), self.__class__.__getstate__(self))
+
     def __getstate__(self, /):
         """
         Used by pickle to serialize an instance to a dict.
